@@ -11,32 +11,35 @@ Variable c : comp.
 Variable lvc : positive.
 Let C1 := l_conns (level_of cfg top).
 Let Cc := l_conns (level_of cfg lvc).
-Definition Cf : list conn := conns_A cfg c ++ conns_B cfg c lvc ++ conns_C cfg c lvc ++ conns_D cfg lvc.
+Definition Cf : list conn := conns_A cfg c ++ conns_B cfg c lvc ++ conns_C cfg c lvc ++ conns_D cfg lvc ++ conns_E cfg c lvc.
 
 Lemma in_conns_A u p y q : In (u, p, y, q) (conns_A cfg c) <-> In (u, p, y, q) C1 /\ u <> c /\ y <> c.
 Proof.
   unfold conns_A. rewrite filter_In. cbn [out_comp in_comp]. fold C1. rewrite andb_true_iff, !negb_true_iff, !Pos.eqb_neq. tauto.
 Qed.
 
-Lemma in_conns_B x p d q' : In (x, p, d, q') (conns_B cfg c lvc) <-> exists q, In (x, p, c, q) C1 /\ In (ext_id, q, d, q') Cc.
+Lemma in_conns_B x p d q' : In (x, p, d, q') (conns_B cfg c lvc) <-> exists q, In (x, p, c, q) C1 /\ In (ext_id, q, d, q') Cc /\ d <> exp_id.
 Proof.
   unfold conns_B. rewrite in_flat_map. fold C1. fold Cc. split.
   - intros [[[[x0 p0] ic] q] [Hi H]]. destruct (Pos.eqb_spec ic c) as [E|]; [|destruct H]. subst ic.
     apply in_flat_map in H. destruct H as [[[[u2 p2] d2] q2] [Hi2 H2]].
     destruct (Pos.eqb_spec u2 ext_id) as [E1|]; [|destruct H2]. destruct (Pos.eqb_spec p2 q) as [E2|]; [|destruct H2].
-    destruct H2 as [E|[]]. inversion E; subst. exists q. split; assumption.
-  - intros [q [H1 H2]]. exists (x, p, c, q). split; [exact H1|]. rewrite Pos.eqb_refl. apply in_flat_map.
-    exists (ext_id, q, d, q'). split; [exact H2|]. rewrite !Pos.eqb_refl. left. reflexivity.
+    destruct (Pos.eqb_spec d2 exp_id) as [E3|N3]; [destruct H2|]. cbn [andb negb] in H2.
+    destruct H2 as [E|[]]. inversion E; subst. exists q. split; [assumption | split; assumption].
+  - intros [q [H1 [H2 H3]]]. exists (x, p, c, q). split; [exact H1|]. rewrite Pos.eqb_refl. apply in_flat_map.
+    exists (ext_id, q, d, q'). split; [exact H2|]. rewrite !Pos.eqb_refl. destruct (Pos.eqb_spec d exp_id) as [E|_]; [contradiction|]. left. reflexivity.
 Qed.
 
-Lemma in_conns_C d p y q : In (d, p, y, q) (conns_C cfg c lvc) <-> exists o, In (d, p, exp_id, o) Cc /\ In (c, o, y, q) C1.
+Lemma in_conns_C d p y q : In (d, p, y, q) (conns_C cfg c lvc) <-> exists o, In (d, p, exp_id, o) Cc /\ In (c, o, y, q) C1 /\ d <> ext_id.
 Proof.
   unfold conns_C. rewrite in_flat_map. fold C1. fold Cc. split.
   - intros [[[[d0 p0] e] o] [Hi H]]. destruct (Pos.eqb_spec e exp_id) as [E|]; [|destruct H]. subst e.
+    destruct (Pos.eqb_spec d0 ext_id) as [E0|N0]; [destruct H|]. cbn [andb negb] in H.
     apply in_flat_map in H. destruct H as [[[[oc op] y2] q2] [Hi2 H2]].
     destruct (Pos.eqb_spec oc c) as [E1|]; [|destruct H2]. destruct (Pos.eqb_spec op o) as [E2|]; [|destruct H2].
-    destruct H2 as [E|[]]. inversion E; subst. exists o. split; assumption.
-  - intros [o [H1 H2]]. exists (d, p, exp_id, o). split; [exact H1|]. rewrite Pos.eqb_refl. apply in_flat_map.
+    destruct H2 as [E|[]]. inversion E; subst. exists o. split; [assumption | split; assumption].
+  - intros [o [H1 [H2 H3]]]. exists (d, p, exp_id, o). split; [exact H1|]. rewrite Pos.eqb_refl.
+    destruct (Pos.eqb_spec d ext_id) as [E|_]; [contradiction|]. cbn [andb negb]. apply in_flat_map.
     exists (c, o, y, q). split; [exact H2|]. rewrite !Pos.eqb_refl. left. reflexivity.
 Qed.
 
@@ -45,7 +48,23 @@ Proof.
   unfold conns_D. rewrite filter_In. cbn [out_comp in_comp]. fold Cc. rewrite andb_true_iff, !negb_true_iff, !Pos.eqb_neq. tauto.
 Qed.
 
-Lemma in_Cf k : In k Cf <-> In k (conns_A cfg c) \/ In k (conns_B cfg c lvc) \/ In k (conns_C cfg c lvc) \/ In k (conns_D cfg lvc).
+Lemma in_conns_E x p y q' : In (x, p, y, q') (conns_E cfg c lvc) <->
+  exists q o, In (x, p, c, q) C1 /\ In (ext_id, q, exp_id, o) Cc /\ In (c, o, y, q') C1.
+Proof.
+  unfold conns_E. rewrite in_flat_map. fold C1. fold Cc. split.
+  - intros [[[[x0 p0] ic] q] [Hi H]]. destruct (Pos.eqb_spec ic c) as [E|]; [|destruct H]. subst ic.
+    apply in_flat_map in H. destruct H as [[[[u2 q2] e] o] [Hi2 H2]].
+    destruct (Pos.eqb_spec u2 ext_id) as [E1|]; [|destruct H2]. destruct (Pos.eqb_spec q2 q) as [E2|]; [|destruct H2].
+    destruct (Pos.eqb_spec e exp_id) as [E3|]; [|destruct H2]. cbn [andb] in H2.
+    apply in_flat_map in H2. destruct H2 as [[[[oc op] y2] q2'] [Hi3 H3]].
+    destruct (Pos.eqb_spec oc c) as [E4|]; [|destruct H3]. destruct (Pos.eqb_spec op o) as [E5|]; [|destruct H3].
+    destruct H3 as [E|[]]. inversion E; subst. exists q, o. split; [assumption | split; assumption].
+  - intros [q [o [H1 [H2 H3]]]]. exists (x, p, c, q). split; [exact H1|]. rewrite Pos.eqb_refl. apply in_flat_map.
+    exists (ext_id, q, exp_id, o). split; [exact H2|]. rewrite !Pos.eqb_refl. cbn [andb]. apply in_flat_map.
+    exists (c, o, y, q'). split; [exact H3|]. rewrite !Pos.eqb_refl. left. reflexivity.
+Qed.
+
+Lemma in_Cf k : In k Cf <-> In k (conns_A cfg c) \/ In k (conns_B cfg c lvc) \/ In k (conns_C cfg c lvc) \/ In k (conns_D cfg lvc) \/ In k (conns_E cfg c lvc).
 Proof. unfold Cf. rewrite !in_app_iff. tauto. Qed.
 End Wires.
 
@@ -73,7 +92,13 @@ Record shape (cfg : config) (c : comp) (lvc : positive) (pre inn post : list com
   sh_c1 : forall u p y q, In (u, p, y, q) (l_conns (level_of cfg top)) ->
             In u (c :: pre ++ post) /\ In y (c :: pre ++ post) /\ ~ (u = c /\ y = c);
   sh_cc : forall u p e q, In (u, p, e, q) (l_conns (level_of cfg lvc)) ->
-            In u (ext_id :: inn) /\ In e (exp_id :: inn) /\ ~ (u = ext_id /\ e = exp_id)
+            In u (ext_id :: inn) /\ In e (exp_id :: inn);
+  (* pass-through ports (a wire straight from an external to an exposed port): what feeds them comes before the
+     system in the order of the top level, what they feed comes after it *)
+  sh_pt_src : forall x p q o, In (x, p, c, q) (l_conns (level_of cfg top)) ->
+            In (ext_id, q, exp_id, o) (l_conns (level_of cfg lvc)) -> In x pre;
+  sh_pt_dst : forall q o y q', In (ext_id, q, exp_id, o) (l_conns (level_of cfg lvc)) ->
+            In (c, o, y, q') (l_conns (level_of cfg top)) -> In y post
 }.
 
 (* the other system simulations: y is a sibling of c at the top level (its subtree is run with fuel
@@ -139,72 +164,99 @@ Qed.
 Lemma c1_ends u p y q : In (u, p, y, q) C1 -> (u = c \/ In u (pre ++ post)) /\ (y = c \/ In y (pre ++ post)) /\ ~ (u = c /\ y = c).
 Proof. intros H. destruct (sh_c1 _ _ _ _ _ _ Hsh u p y q H) as [[A|A] [[B|B] D]]; repeat split; auto. Qed.
 
-Lemma cc_ends u p e q : In (u, p, e, q) Cc -> (u = ext_id \/ In u inn) /\ (e = exp_id \/ In e inn) /\ ~ (u = ext_id /\ e = exp_id).
-Proof. intros H. destruct (sh_cc _ _ _ _ _ _ Hsh u p e q H) as [[A|A] [[B|B] D]]; repeat split; auto. Qed.
+Lemma cc_ends u p e q : In (u, p, e, q) Cc -> (u = ext_id \/ In u inn) /\ (e = exp_id \/ In e inn).
+Proof. intros H. destruct (sh_cc _ _ _ _ _ _ Hsh u p e q H) as [[A|A] [B|B]]; split; auto. Qed.
 
-(* the four kinds of wires of the inlined level *)
+(* the kinds of wires of the inlined level *)
 Lemma wire_AA u p y q : In u (pre ++ post) -> In y (pre ++ post) ->
-  (In (u, p, y, q) (Cf cfg c lvc) <-> In (u, p, y, q) C1).
+  (In (u, p, y, q) (Cf cfg c lvc) <->
+   In (u, p, y, q) C1 \/ exists q0 o, In (u, p, c, q0) C1 /\ In (ext_id, q0, exp_id, o) Cc /\ In (c, o, y, q) C1).
 Proof.
   intros Hu Hy. destruct (outsider_facts u Hu) as [Hui [Huc [Hue Hux]]]. destruct (outsider_facts y Hy) as [Hyi [Hyc [Hye Hyx]]].
-  rewrite in_Cf, in_conns_A, in_conns_B, in_conns_C, in_conns_D. fold C1. fold Cc. split.
-  - intros [[H _]|[[q0 [_ H]]|[[o [H _]]|[H _]]]]; [exact H | | |].
-    + destruct (cc_ends _ _ _ _ H) as [_ [[E|Hi] _]]; [contradiction | contradiction].
+  rewrite in_Cf, in_conns_A, in_conns_B, in_conns_C, in_conns_D, in_conns_E. fold C1. fold Cc. split.
+  - intros [[H _]|[[q0 [_ [H _]]]|[[o [H _]]|[[H _]|H]]]]; [left; exact H | | | | right; exact H].
+    + destruct (cc_ends _ _ _ _ H) as [_ [E|Hi]]; contradiction.
     + destruct (cc_ends _ _ _ _ H) as [[E|Hi] _]; contradiction.
     + destruct (cc_ends _ _ _ _ H) as [[E|Hi] _]; contradiction.
-  - intros H. left. split; [exact H | split; assumption].
+  - intros [H|H]; [left; split; [exact H | split; assumption] | right; right; right; right; exact H].
+Qed.
+
+Lemma wire_AA_plain u p y q : In u (pre ++ post) -> In y (pre ++ post) -> (forall o, ~ In (c, o, y, q) C1) ->
+  (In (u, p, y, q) (Cf cfg c lvc) <-> In (u, p, y, q) C1).
+Proof.
+  intros Hu Hy Hno. rewrite (wire_AA u p y q Hu Hy). split; [|intros H; left; exact H].
+  intros [H|[q0 [o [_ [_ H]]]]]; [exact H | exfalso; apply (Hno o H)].
+Qed.
+
+Lemma wire_AE u p y q o : In u (pre ++ post) -> In y (pre ++ post) -> In (c, o, y, q) C1 ->
+  (In (u, p, y, q) (Cf cfg c lvc) <-> exists q0, In (u, p, c, q0) C1 /\ In (ext_id, q0, exp_id, o) Cc).
+Proof.
+  intros Hu Hy Hk. pose proof (sh_ss1 _ _ _ _ _ _ Hsh) as S1. fold C1 in S1.
+  destruct (outsider_facts u Hu) as [_ [Huc _]].
+  rewrite (wire_AA u p y q Hu Hy). split.
+  - intros [H|[q0 [o' [H1 [H2 H3]]]]].
+    + destruct (S1 u p c o y q H Hk) as [E _]. contradiction.
+    + destruct (S1 c o' c o y q H3 Hk) as [_ E]. subst o'. exists q0. split; assumption.
+  - intros [q0 [H1 H2]]. right. exists q0, o. split; [exact H1 | split; [exact H2 | exact Hk]].
 Qed.
 
 Lemma wire_AB x p d q' : In x (pre ++ post) -> In d inn ->
   (In (x, p, d, q') (Cf cfg c lvc) <-> exists q, In (x, p, c, q) C1 /\ In (ext_id, q, d, q') Cc).
 Proof.
   intros Hx Hd. destruct (outsider_facts x Hx) as [Hxi [Hxc [Hxe Hxx]]]. destruct (inner_not_outsider d Hd) as [Hdo [Hdc [Hde Hdx]]].
-  rewrite in_Cf, in_conns_A, in_conns_B, in_conns_C, in_conns_D. fold C1. fold Cc. split.
-  - intros [[H _]|[H|[[o [H _]]|[H _]]]]; [| exact H | |].
+  rewrite in_Cf, in_conns_A, in_conns_B, in_conns_C, in_conns_D, in_conns_E. fold C1. fold Cc. split.
+  - intros [[H _]|[[q [H1 [H2 _]]]|[[o [H _]]|[[H _]|[q0 [o [_ [_ H]]]]]]]].
     + destruct (c1_ends _ _ _ _ H) as [_ [[E|Hi] _]]; contradiction.
+    + exists q. split; assumption.
     + destruct (cc_ends _ _ _ _ H) as [[E|Hi] _]; contradiction.
     + destruct (cc_ends _ _ _ _ H) as [[E|Hi] _]; contradiction.
-  - intros H. right. left. exact H.
+    + destruct (c1_ends _ _ _ _ H) as [_ [[E|Hi] _]]; contradiction.
+  - intros [q [H1 H2]]. right. left. exists q. split; [exact H1 | split; [exact H2 | exact Hdx]].
 Qed.
 
 Lemma wire_BA d p y q : In d inn -> In y (pre ++ post) ->
   (In (d, p, y, q) (Cf cfg c lvc) <-> exists o, In (d, p, exp_id, o) Cc /\ In (c, o, y, q) C1).
 Proof.
   intros Hd Hy. destruct (outsider_facts y Hy) as [Hyi [Hyc [Hye Hyx]]]. destruct (inner_not_outsider d Hd) as [Hdo [Hdc [Hde Hdx]]].
-  rewrite in_Cf, in_conns_A, in_conns_B, in_conns_C, in_conns_D. fold C1. fold Cc. split.
-  - intros [[H _]|[[q0 [H _]]|[H|[H _]]]]; [| | exact H |].
+  rewrite in_Cf, in_conns_A, in_conns_B, in_conns_C, in_conns_D, in_conns_E. fold C1. fold Cc. split.
+  - intros [[H _]|[[q0 [H _]]|[[o [H1 [H2 _]]]|[[H _]|[q0 [o [H _]]]]]]].
     + destruct (c1_ends _ _ _ _ H) as [[E|Hi] _]; contradiction.
     + destruct (c1_ends _ _ _ _ H) as [[E|Hi] _]; contradiction.
-    + destruct (cc_ends _ _ _ _ H) as [_ [[E|Hi] _]]; contradiction.
-  - intros H. right. right. left. exact H.
+    + exists o. split; assumption.
+    + destruct (cc_ends _ _ _ _ H) as [_ [E|Hi]]; contradiction.
+    + destruct (c1_ends _ _ _ _ H) as [[E|Hi] _]; contradiction.
+  - intros [o [H1 H2]]. right. right. left. exists o. split; [exact H1 | split; [exact H2 | exact Hde]].
 Qed.
 
 Lemma wire_BB d p e q : In d inn -> In e inn ->
   (In (d, p, e, q) (Cf cfg c lvc) <-> In (d, p, e, q) Cc).
 Proof.
   intros Hd He. destruct (inner_not_outsider d Hd) as [Hdo [Hdc [Hde Hdx]]]. destruct (inner_not_outsider e He) as [Heo [Hec [Hee Hex]]].
-  rewrite in_Cf, in_conns_A, in_conns_B, in_conns_C, in_conns_D. fold C1. fold Cc. split.
-  - intros [[H _]|[[q0 [H _]]|[[o [_ H]]|[H _]]]]; [| | | exact H].
+  rewrite in_Cf, in_conns_A, in_conns_B, in_conns_C, in_conns_D, in_conns_E. fold C1. fold Cc. split.
+  - intros [[H _]|[[q0 [H _]]|[[o [_ [H _]]]|[[H _]|[q0 [o [H _]]]]]]]; [| | | exact H |].
     + destruct (c1_ends _ _ _ _ H) as [[E|Hi] _]; contradiction.
     + destruct (c1_ends _ _ _ _ H) as [[E|Hi] _]; contradiction.
     + destruct (c1_ends _ _ _ _ H) as [_ [[E|Hi] _]]; contradiction.
-  - intros H. right. right. right. split; [exact H | split; assumption].
+    + destruct (c1_ends _ _ _ _ H) as [[E|Hi] _]; contradiction.
+  - intros H. right. right. right. left. split; [exact H | split; assumption].
 Qed.
 
-(* every wire of the inlined level joins two of its devices *)
+(* every wire of the inlined level joins two of its components *)
 Lemma Cf_ends u p y q : In (u, p, y, q) (Cf cfg c lvc) -> In u (pre ++ inn ++ post) /\ In y (pre ++ inn ++ post).
 Proof.
   assert (Hout : forall z, In z (pre ++ post) -> In z (pre ++ inn ++ post)).
   { intros z Hz. apply in_app_iff in Hz. destruct Hz as [H|H]; apply in_app_iff; [left; exact H | right; apply in_app_iff; right; exact H]. }
   assert (Hinn : forall z, In z inn -> In z (pre ++ inn ++ post)) by (intros z Hz; apply in_app_iff; right; apply in_app_iff; left; exact Hz).
-  rewrite in_Cf, in_conns_A, in_conns_B, in_conns_C, in_conns_D. fold C1. fold Cc.
-  intros [[H [Hu Hy]]|[[q0 [H1 H2]]|[[o [H1 H2]]|[H [Hu Hy]]]]].
+  rewrite in_Cf, in_conns_A, in_conns_B, in_conns_C, in_conns_D, in_conns_E. fold C1. fold Cc.
+  intros [[H [Hu Hy]]|[[q0 [H1 [H2 Hd]]]|[[o [H1 [H2 Hd]]]|[[H [Hu Hy]]|[q0 [o [H1 [H2 H3]]]]]]]].
   - destruct (c1_ends _ _ _ _ H) as [[E|A] [[E2|B] _]]; try contradiction. split; apply Hout; assumption.
   - destruct (c1_ends _ _ _ _ H1) as [[E|A] [_ D]]; [exfalso; apply D; split; [exact E | reflexivity]|].
-    destruct (cc_ends _ _ _ _ H2) as [_ [[E|B] D2]]; [exfalso; apply D2; split; [reflexivity | exact E]|]. split; [apply Hout | apply Hinn]; assumption.
-  - destruct (cc_ends _ _ _ _ H1) as [[E|A] [_ D]]; [exfalso; apply D; split; [exact E | reflexivity]|].
+    destruct (cc_ends _ _ _ _ H2) as [_ [E|B]]; [contradiction|]. split; [apply Hout | apply Hinn]; assumption.
+  - destruct (cc_ends _ _ _ _ H1) as [[E|A] _]; [contradiction|].
     destruct (c1_ends _ _ _ _ H2) as [_ [[E|B] D2]]; [exfalso; apply D2; split; [reflexivity | exact E]|]. split; [apply Hinn | apply Hout]; assumption.
-  - destruct (cc_ends _ _ _ _ H) as [[E|A] [[E2|B] _]]; try contradiction. split; apply Hinn; assumption.
+  - destruct (cc_ends _ _ _ _ H) as [[E|A] [E2|B]]; try contradiction. split; apply Hinn; assumption.
+  - destruct (c1_ends _ _ _ _ H1) as [[E|A] [_ D]]; [exfalso; apply D; split; [exact E | reflexivity]|].
+    destruct (c1_ends _ _ _ _ H3) as [_ [[E|B] D2]]; [exfalso; apply D2; split; [reflexivity | exact E]|]. split; apply Hout; assumption.
 Qed.
 
 Lemma split_all z : In z (pre ++ inn ++ post) -> In z inn \/ In z (pre ++ post).
@@ -220,7 +272,7 @@ Proof.
   destruct (Cf_ends _ _ _ _ H) as [Hu Hy]. destruct (Cf_ends _ _ _ _ H') as [Hu' _].
   apply split_all in Hu. apply split_all in Hu'. apply split_all in Hy.
   destruct Hy as [Hy|Hy].
-  - (* the sink is an inner device *)
+  - (* the sink is an inner component *)
     destruct Hu as [Hu|Hu]; destruct Hu' as [Hu'|Hu'].
     + apply (wire_BB u p y q Hu Hy) in H. apply (wire_BB u' p' y q Hu' Hy) in H'. apply (Sc u p u' p' y q H H').
     + apply (wire_BB u p y q Hu Hy) in H. apply (wire_AB u' p' y q Hu' Hy) in H'. destruct H' as [q0 [_ H']].
@@ -229,15 +281,27 @@ Proof.
       destruct (Sc ext_id q0 u' p' y q H H') as [E _]. subst u'. destruct (inner_not_outsider _ Hu') as [_ [_ [X _]]]. contradiction.
     + apply (wire_AB u p y q Hu Hy) in H. apply (wire_AB u' p' y q Hu' Hy) in H'. destruct H as [q0 [H1 H2]]. destruct H' as [q0' [H1' H2']].
       destruct (Sc ext_id q0 ext_id q0' y q H2 H2') as [_ E]. subst q0'. apply (S1 u p u' p' c q0 H1 H1').
-  - (* the sink is a top-level device *)
+  - (* the sink is a top-level component *)
     destruct Hu as [Hu|Hu]; destruct Hu' as [Hu'|Hu'].
     + apply (wire_BA u p y q Hu Hy) in H. apply (wire_BA u' p' y q Hu' Hy) in H'. destruct H as [o [H1 H2]]. destruct H' as [o' [H1' H2']].
       destruct (S1 c o c o' y q H2 H2') as [_ E]. subst o'. apply (Sc u p u' p' exp_id o H1 H1').
-    + apply (wire_BA u p y q Hu Hy) in H. apply (wire_AA u' p' y q Hu' Hy) in H'. destruct H as [o [_ H2]].
-      destruct (S1 c o u' p' y q H2 H') as [E _]. subst u'. destruct (outsider_facts _ Hu') as [_ [X _]]. exfalso. apply X. reflexivity.
-    + apply (wire_AA u p y q Hu Hy) in H. apply (wire_BA u' p' y q Hu' Hy) in H'. destruct H' as [o [_ H2]].
-      destruct (S1 u p c o y q H H2) as [E _]. subst u. destruct (outsider_facts _ Hu) as [_ [X _]]. exfalso. apply X. reflexivity.
-    + apply (wire_AA u p y q Hu Hy) in H. apply (wire_AA u' p' y q Hu' Hy) in H'. apply (S1 u p u' p' y q H H').
+    + apply (wire_BA u p y q Hu Hy) in H. apply (wire_AA u' p' y q Hu' Hy) in H'. destruct H as [o [H1 H2]].
+      destruct H' as [H'|[q0 [o' [_ [H2' H3']]]]].
+      * destruct (S1 c o u' p' y q H2 H') as [E _]. subst u'. destruct (outsider_facts _ Hu') as [_ [X _]]. exfalso. apply X. reflexivity.
+      * destruct (S1 c o c o' y q H2 H3') as [_ E]. subst o'. destruct (Sc u p ext_id q0 exp_id o H1 H2') as [E _]. subst u.
+        destruct (inner_not_outsider _ Hu) as [_ [_ [X _]]]. contradiction.
+    + apply (wire_AA u p y q Hu Hy) in H. apply (wire_BA u' p' y q Hu' Hy) in H'. destruct H' as [o [H1 H2]].
+      destruct H as [H|[q0 [o' [_ [H2' H3']]]]].
+      * destruct (S1 u p c o y q H H2) as [E _]. subst u. destruct (outsider_facts _ Hu) as [_ [X _]]. exfalso. apply X. reflexivity.
+      * destruct (S1 c o' c o y q H3' H2) as [_ E]. subst o'. destruct (Sc ext_id q0 u' p' exp_id o H2' H1) as [E _]. subst u'.
+        destruct (inner_not_outsider _ Hu') as [_ [_ [X _]]]. contradiction.
+    + apply (wire_AA u p y q Hu Hy) in H. apply (wire_AA u' p' y q Hu' Hy) in H'.
+      destruct H as [H|[q0 [o [H1 [H2 H3]]]]]; destruct H' as [H'|[q0' [o' [H1' [H2' H3']]]]].
+      * apply (S1 u p u' p' y q H H').
+      * destruct (S1 u p c o' y q H H3') as [E _]. subst u. destruct (outsider_facts _ Hu) as [_ [X _]]. exfalso. apply X. reflexivity.
+      * destruct (S1 c o u' p' y q H3 H') as [E _]. subst u'. destruct (outsider_facts _ Hu') as [_ [X _]]. exfalso. apply X. reflexivity.
+      * destruct (S1 c o c o' y q H3 H3') as [_ E]. subst o'. destruct (Sc ext_id q0 ext_id q0' exp_id o H2 H2') as [_ E]. subst q0'.
+        apply (S1 u p u' p' c q0 H1 H1').
 Qed.
 End Shape.
 
@@ -264,7 +328,7 @@ Definition outs_ : list comp := pre ++ post.
 (* the relation between the nested run (N) and the inlined run (F) outside the system's own tick *)
 Record Rout (aN aF : core) : Prop := {
   ro_dev : forall z, In z allc -> drel (co_s aN) (co_s aF) z;
-  ro_pend : forall y, In y outs_ -> forall q, pd aF y q = pd aN y q;
+  ro_pend : forall y, In y outs_ -> forall q, (forall o, ~ In (c, o, y, q) C1) -> pd aF y q = pd aN y q;
   ro_okN : in_ok (co_in aN);
   ro_okF : in_ok (co_in aF);
   ro_obs : obs_rel (co_obs aN) (co_obs aF);
@@ -302,107 +366,144 @@ Lemma in_inn_all d : In d inn -> In d allc.
 Proof. unfold allc. intros H. apply in_app_iff. right. apply in_app_iff. left. exact H. Qed.
 
 (* what a component of the top level leaves pending, on both sides, when it reports [ch] *)
-Lemma pend_after_step aN aF aN' aF' x ch :
-  In x outs_ -> NoDup (keys ch) -> (forall y, In y outs_ -> forall q, pd aF y q = pd aN y q) ->
+(* ... and what is pending in F on a port fed by the system is what is pending on the system's input port that a
+   pass-through wire (external -> expose) leads to that output *)
+Definition Rpt (aN aF : core) : Prop :=
+  forall o y q', In y outs_ -> In (c, o, y, q') C1 ->
+    forall v, pd aF y q' = Some v <-> exists q, In (ext_id, q, exp_id, o) Cc /\ pd aN c q = Some v.
+
+(* after the system has been ticked: the ports it feeds hold the same on both sides *)
+Definition Rfed (aN aF : core) : Prop := forall o y q, In y outs_ -> In (c, o, y, q) C1 -> pd aF y q = pd aN y q.
+
+Lemma option_ext {A} (a b : option A) : (forall v, a = Some v <-> b = Some v) -> a = b.
+Proof.
+  intros H. destruct a as [x|], b as [y|]; [| | |reflexivity].
+  - symmetry. apply (proj1 (H x) eq_refl).
+  - symmetry. apply (proj1 (H x) eq_refl).
+  - apply (proj2 (H y) eq_refl).
+Qed.
+
+(* a port of F that is fed, in the nested configuration, through an input port of the system ([link]): the
+   correspondence of what is pending survives a report of a top-level component *)
+Lemma through_step aN aF aN' aF' x ch yF qF (link : port -> Prop) :
+  NoDup (keys ch) ->
+  (forall q q', link q -> link q' -> q = q') ->
+  (forall p, In (x, p, yF, qF) CF <-> exists q, In (x, p, c, q) C1 /\ link q) ->
   (forall y q, pd aN' y q = match lookup2r (route C1 x ch) y q with Some v => Some v | None => pd aN y q end) ->
   (forall y q, pd aF' y q = match lookup2r (route CF x ch) y q with Some v => Some v | None => pd aF y q end) ->
-  (forall y, In y outs_ -> forall q, pd aF' y q = pd aN' y q) /\ (Rpre aN aF -> Rpre aN' aF') /\ (Rnc aN -> Rnc aN').
+  (forall v, pd aF yF qF = Some v <-> exists q, link q /\ pd aN c q = Some v) ->
+  (forall v, pd aF' yF qF = Some v <-> exists q, link q /\ pd aN' c q = Some v).
+Proof.
+  intros Hch Hfun Hw PN PF HP v.
+  pose proof (sh_ss1 _ _ _ _ _ _ Hsh) as S1. fold C1 in S1.
+  pose proof (Cf_single_source cfg c lvc pre inn post Hsh) as SF. fold CF in SF.
+  rewrite PF. specialize (HP v).
+  destruct (lookup2r (route CF x ch) yF qF) as [v2|] eqn:ER.
+  - apply (route_exact CF x ch yF qF v2 SF Hch) in ER. destruct ER as [p [Hl Hk]].
+    apply Hw in Hk. destruct Hk as [q0 [Hk1 Hk2]].
+    assert (Hrc : lookup2r (route C1 x ch) c q0 = Some v2) by (apply (route_exact C1 x ch c q0 v2 S1 Hch); exists p; split; assumption).
+    split.
+    + intros E. inversion E; subst v2. exists q0. split; [exact Hk2|]. rewrite PN, Hrc. reflexivity.
+    + intros [q [Hq Hv]]. rewrite (Hfun q q0 Hq Hk2) in Hv. rewrite PN, Hrc in Hv. exact Hv.
+  - split.
+    + intros Hv. apply HP in Hv. destruct Hv as [q [Hq Hv]]. exists q. split; [exact Hq|]. rewrite PN.
+      destruct (lookup2r (route C1 x ch) c q) as [v3|] eqn:Ec; [|exact Hv]. exfalso.
+      apply (route_exact C1 x ch c q v3 S1 Hch) in Ec. destruct Ec as [p [Hl Hk]].
+      assert (Hkf : In (x, p, yF, qF) CF) by (apply Hw; exists q; split; assumption).
+      assert (ER' : lookup2r (route CF x ch) yF qF = Some v3) by (apply (route_exact CF x ch yF qF v3 SF Hch); exists p; split; assumption).
+      congruence.
+    + intros [q [Hq Hv]]. apply HP. exists q. split; [exact Hq|]. rewrite PN in Hv.
+      destruct (lookup2r (route C1 x ch) c q) as [v3|] eqn:Ec; [|exact Hv]. exfalso.
+      apply (route_exact C1 x ch c q v3 S1 Hch) in Ec. destruct Ec as [p [Hl Hk]].
+      assert (Hkf : In (x, p, yF, qF) CF) by (apply Hw; exists q; split; assumption).
+      assert (ER' : lookup2r (route CF x ch) yF qF = Some v3) by (apply (route_exact CF x ch yF qF v3 SF Hch); exists p; split; assumption).
+      congruence.
+Qed.
+
+Lemma pre_post_disjoint x : In x pre -> In x post -> False.
+Proof.
+  intros H1 H2. destruct (nd_facts cfg c lvc pre inn post Hsh) as [_ [_ [_ [_ [_ Hnd]]]]].
+  apply (NoDup_app_disjoint pre (inn ++ post) x Hnd H1). apply in_app_iff. right. exact H2.
+Qed.
+
+Lemma pend_after_step aN aF aN' aF' x ch :
+  In x outs_ -> NoDup (keys ch) ->
+  (forall y, In y outs_ -> forall q, (forall o, ~ In (c, o, y, q) C1) -> pd aF y q = pd aN y q) ->
+  (forall y q, pd aN' y q = match lookup2r (route C1 x ch) y q with Some v => Some v | None => pd aN y q end) ->
+  (forall y q, pd aF' y q = match lookup2r (route CF x ch) y q with Some v => Some v | None => pd aF y q end) ->
+  (forall y, In y outs_ -> forall q, (forall o, ~ In (c, o, y, q) C1) -> pd aF' y q = pd aN' y q) /\
+  (Rpre aN aF -> Rpre aN' aF') /\ (Rpt aN aF -> Rpt aN' aF') /\ (Rnc aN -> Rnc aN') /\
+  (In x post -> Rfed aN aF -> Rfed aN' aF').
 Proof.
   intros Hx Hch Hpend PN PF.
   destruct (outsider_facts cfg c lvc pre inn post Hsh x Hx) as [Hxi [Hxc [Hxe Hxx]]].
   pose proof (sh_ss1 _ _ _ _ _ _ Hsh) as S1. fold C1 in S1.
+  pose proof (sh_ssc _ _ _ _ _ _ Hsh) as Sc. fold Cc in Sc.
   pose proof (Cf_single_source cfg c lvc pre inn post Hsh) as SF. fold CF in SF.
-  split; [|split].
-  - intros y Hy q. rewrite PN, PF, (Hpend y Hy q).
+  split; [|split; [|split; [|split]]].
+  - intros y Hy q Hno. rewrite PN, PF, (Hpend y Hy q Hno).
     rewrite (route_lookup_ext C1 CF x ch y q y q S1 SF Hch); [reflexivity|].
-    intros p. apply (wire_AA cfg c lvc pre inn post Hsh x p y q Hx Hy).
-  - intros HP d Hd q' v. rewrite PF. specialize (HP d Hd q' v).
-      destruct (lookup2r (route CF x ch) d q') as [v2|] eqn:ER.
-      * apply (route_exact CF x ch d q' v2 SF Hch) in ER. destruct ER as [p [Hl Hk]].
-        apply (wire_AB cfg c lvc pre inn post Hsh x p d q' Hx Hd) in Hk. destruct Hk as [q0 [Hk1 Hk2]]. fold C1 in Hk1. fold Cc in Hk2.
-        assert (Hrc : lookup2r (route C1 x ch) c q0 = Some v2) by (apply (route_exact C1 x ch c q0 v2 S1 Hch); exists p; split; assumption).
-        split.
-        -- intros E. inversion E; subst v2. exists q0. split; [exact Hk2|]. rewrite PN, Hrc. reflexivity.
-        -- intros [q [Hq Hv]]. pose proof (sh_ssc _ _ _ _ _ _ Hsh) as Sc. fold Cc in Sc.
-           destruct (Sc ext_id q ext_id q0 d q' Hq Hk2) as [_ E]. subst q0. rewrite PN, Hrc in Hv. exact Hv.
-      * split.
-        -- intros Hv. apply HP in Hv. destruct Hv as [q [Hq Hv]]. exists q. split; [exact Hq|]. rewrite PN.
-           destruct (lookup2r (route C1 x ch) c q) as [v3|] eqn:Ec; [|exact Hv]. exfalso.
-           apply (route_exact C1 x ch c q v3 S1 Hch) in Ec. destruct Ec as [p [Hl Hk]].
-           assert (Hkf : In (x, p, d, q') CF) by (apply (wire_AB cfg c lvc pre inn post Hsh x p d q' Hx Hd); exists q; split; assumption).
-           assert (ER' : lookup2r (route CF x ch) d q' = Some v3) by (apply (route_exact CF x ch d q' v3 SF Hch); exists p; split; assumption).
-           congruence.
-        -- intros [q [Hq Hv]]. apply HP. exists q. split; [exact Hq|]. rewrite PN in Hv.
-           destruct (lookup2r (route C1 x ch) c q) as [v3|] eqn:Ec; [|exact Hv]. exfalso.
-           apply (route_exact C1 x ch c q v3 S1 Hch) in Ec. destruct Ec as [p [Hl Hk]].
-           assert (Hkf : In (x, p, d, q') CF) by (apply (wire_AB cfg c lvc pre inn post Hsh x p d q' Hx Hd); exists q; split; assumption).
-           assert (ER' : lookup2r (route CF x ch) d q' = Some v3) by (apply (route_exact CF x ch d q' v3 SF Hch); exists p; split; assumption).
-           congruence.
+    intros p. apply (wire_AA_plain cfg c lvc pre inn post Hsh x p y q Hx Hy Hno).
+  - intros HP d Hd q' v.
+    apply (through_step aN aF aN' aF' x ch d q' (fun q => In (ext_id, q, d, q') Cc) Hch); try assumption.
+    + intros q q0 H1 H2. destruct (Sc ext_id q ext_id q0 d q' H1 H2) as [_ E]. exact E.
+    + intros p. apply (wire_AB cfg c lvc pre inn post Hsh x p d q' Hx Hd).
+    + intros v0. apply (HP d Hd q' v0).
+  - intros HP o y q' Hy Hk v.
+    apply (through_step aN aF aN' aF' x ch y q' (fun q => In (ext_id, q, exp_id, o) Cc) Hch); try assumption.
+    + intros q q0 H1 H2. destruct (Sc ext_id q ext_id q0 exp_id o H1 H2) as [_ E]. exact E.
+    + intros p. apply (wire_AE cfg c lvc pre inn post Hsh x p y q' o Hx Hy Hk).
+    + intros v0. apply (HP o y q' Hy Hk v0).
   - intros HN o y q Hk. rewrite PN, (HN o y q Hk).
-      rewrite (route_lookup_none C1 x ch y q S1 Hch); [reflexivity|].
-      intros p Hk2. destruct (S1 x p c o y q Hk2 Hk) as [E _]. apply Hxc. exact E.
+    rewrite (route_lookup_none C1 x ch y q S1 Hch); [reflexivity|].
+    intros p Hk2. destruct (S1 x p c o y q Hk2 Hk) as [E _]. apply Hxc. exact E.
+  - intros Hpost HF o y q Hy Hk. rewrite PN, PF, (HF o y q Hy Hk).
+    rewrite (route_lookup_none C1 x ch y q S1 Hch), (route_lookup_none CF x ch y q SF Hch); [reflexivity | |].
+    + intros p Hk2. apply (wire_AE cfg c lvc pre inn post Hsh x p y q o Hx Hy Hk) in Hk2. destruct Hk2 as [q0 [H1 H2]].
+      apply (pre_post_disjoint x); [apply (sh_pt_src _ _ _ _ _ _ Hsh x p q0 o H1 H2) | exact Hpost].
+    + intros p Hk2. destruct (S1 x p c o y q Hk2 Hk) as [E _]. apply Hxc. exact E.
 Qed.
+
+(* what a step of a top-level component keeps of the relations about pending values *)
+Definition keepP (aN aF aN' aF' : core) (x : comp) : Prop :=
+  (Rpre aN aF -> Rpre aN' aF') /\ (Rpt aN aF -> Rpt aN' aF') /\ (Rnc aN -> Rnc aN') /\ (In x post -> Rfed aN aF -> Rfed aN' aF').
+
+Lemma keepP_refl aN aF x : keepP aN aF aN aF x.
+Proof. unfold keepP. split; [auto|]. split; [auto|]. split; auto. Qed.
 
 (* a top-level device is processed on both sides *)
 Lemma out_step innN innF rootsN rootsF aN aF x :
-  In x outs_ -> memb x rootsN = memb x rootsF -> Rout aN aF ->
+  In x outs_ -> memb x rootsN = memb x rootsF -> Rout aN aF -> (forall q, pd aF x q = pd aN x q) ->
   let aN' := step' devf innN top C1 time rootsN [] aN (x, KDev) in
   let aF' := step' devf innF top CF time rootsF [] aF (x, KDev) in
-  Rout aN' aF' /\ (Rpre aN aF -> Rpre aN' aF') /\ (Rnc aN -> Rnc aN') /\
+  Rout aN' aF' /\ keepP aN aF aN' aF' x /\
   wake_of (co_s aN') lvc = wake_of (co_s aN) lvc /\
   (forall d, In d inn -> lookup d (wake_of (co_s aF') top) = lookup d (wake_of (co_s aF) top)) /\
   (lookup c (wake_of (co_s aN') top) = lookup c (wake_of (co_s aN) top)) /\
   s_int (co_s aN') = s_int (co_s aN) /\ s_ticked (co_s aN') = s_ticked (co_s aN) /\
   (SUB (co_s aN) (co_s aF) -> SUB (co_s aN') (co_s aF')).
 Proof.
-  intros Hx Hr HR. cbv zeta.
+  intros Hx Hr HR Hfull. cbv zeta.
   destruct (outsider_facts cfg c lvc pre inn post Hsh x Hx) as [Hxi [Hxc [Hxe Hxx]]].
-  pose proof (sh_ss1 _ _ _ _ _ _ Hsh) as S1. fold C1 in S1.
-  pose proof (Cf_single_source cfg c lvc pre inn post Hsh) as SF. fold CF in SF.
   destruct (par_dev devf Hdev_nd Hdev_ext time innN innF top top C1 CF rootsN rootsF [] [] aN aF x Hxe Hxx
-              (ro_dev _ _ HR x (in_outs_all x Hx)) (eqv_of_pd aN aF x (ro_pend _ _ HR x Hx)) (ro_okN _ _ HR x) (ro_okF _ _ HR x) Hr)
+              (ro_dev _ _ HR x (in_outs_all x Hx)) (eqv_of_pd aN aF x Hfull) (ro_okN _ _ HR x) (ro_okF _ _ HR x) Hr)
     as [[EN EF]|[ch [ca [iN [iF [Hch [Hieq [HeN [HeF Hdx]]]]]]]]].
-  - rewrite EN, EF. split; [exact HR|]. split; [auto|]. split; [auto|]. split; [reflexivity|]. split; [auto|]. split; [reflexivity|]. split; [reflexivity|]. split; [reflexivity | auto].
+  - rewrite EN, EF. split; [exact HR|]. split; [apply keepP_refl|]. split; [reflexivity|]. split; [auto|]. split; [reflexivity|]. split; [reflexivity|]. split; [reflexivity | auto].
   - assert (PN := pd_after time top C1 aN _ x ch ca iN HeN). assert (PF := pd_after time top CF aF _ x ch ca iF HeF).
-    split; [|split; [|split; [|split; [|split; [|split; [|split; [|split]]]]]]].
+    destruct (pend_after_step aN aF _ _ x ch Hx Hch (ro_pend _ _ HR) PN PF) as [Hpend [Hpre [Hpt [Hnc Hfed]]]].
+    split; [|split; [|split; [|split; [|split; [|split; [|split]]]]]].
     + constructor.
       * intros z Hz. destruct (Pos.eq_dec z x) as [E|Hne]; [subst z; exact Hdx|].
         unfold drel. rewrite (de_other _ _ _ _ _ _ _ _ _ HeN z Hne), (de_other _ _ _ _ _ _ _ _ _ HeF z Hne),
           (de_cnt_other _ _ _ _ _ _ _ _ _ HeN z Hne), (de_cnt_other _ _ _ _ _ _ _ _ _ HeF z Hne). apply (ro_dev _ _ HR z Hz).
-      * intros y Hy q. rewrite PN, PF, (ro_pend _ _ HR y Hy q).
-        rewrite (route_lookup_ext C1 CF x ch y q y q S1 SF Hch); [reflexivity|].
-        intros p. apply (wire_AA cfg c lvc pre inn post Hsh x p y q Hx Hy).
+      * exact Hpend.
       * rewrite (de_in _ _ _ _ _ _ _ _ _ HeN). apply in_ok_accumulate. exact (ro_okN _ _ HR).
       * rewrite (de_in _ _ _ _ _ _ _ _ _ HeF). apply in_ok_accumulate. exact (ro_okF _ _ HR).
       * rewrite (de_obs _ _ _ _ _ _ _ _ _ HeN), (de_obs _ _ _ _ _ _ _ _ _ HeF). apply obs_rel_app; [exact (ro_obs _ _ HR)|].
         constructor; [|constructor]. split; [reflexivity | exact Hieq].
       * intros y Hy. rewrite (de_wake _ _ _ _ _ _ _ _ _ HeN), (de_wake _ _ _ _ _ _ _ _ _ HeF).
         destruct ca as [w|]; [rewrite !lookup_upd; rewrite (ro_wo _ _ HR y Hy); reflexivity | apply (ro_wo _ _ HR y Hy)].
-    + intros HP d Hd q' v. rewrite PF. specialize (HP d Hd q' v).
-      destruct (lookup2r (route CF x ch) d q') as [v2|] eqn:ER.
-      * apply (route_exact CF x ch d q' v2 SF Hch) in ER. destruct ER as [p [Hl Hk]].
-        apply (wire_AB cfg c lvc pre inn post Hsh x p d q' Hx Hd) in Hk. destruct Hk as [q0 [Hk1 Hk2]]. fold C1 in Hk1. fold Cc in Hk2.
-        assert (Hrc : lookup2r (route C1 x ch) c q0 = Some v2) by (apply (route_exact C1 x ch c q0 v2 S1 Hch); exists p; split; assumption).
-        split.
-        -- intros E. inversion E; subst v2. exists q0. split; [exact Hk2|]. rewrite PN, Hrc. reflexivity.
-        -- intros [q [Hq Hv]]. pose proof (sh_ssc _ _ _ _ _ _ Hsh) as Sc. fold Cc in Sc.
-           destruct (Sc ext_id q ext_id q0 d q' Hq Hk2) as [_ E]. subst q0. rewrite PN, Hrc in Hv. exact Hv.
-      * split.
-        -- intros Hv. apply HP in Hv. destruct Hv as [q [Hq Hv]]. exists q. split; [exact Hq|]. rewrite PN.
-           destruct (lookup2r (route C1 x ch) c q) as [v3|] eqn:Ec; [|exact Hv]. exfalso.
-           apply (route_exact C1 x ch c q v3 S1 Hch) in Ec. destruct Ec as [p [Hl Hk]].
-           assert (Hkf : In (x, p, d, q') CF) by (apply (wire_AB cfg c lvc pre inn post Hsh x p d q' Hx Hd); exists q; split; assumption).
-           assert (ER' : lookup2r (route CF x ch) d q' = Some v3) by (apply (route_exact CF x ch d q' v3 SF Hch); exists p; split; assumption).
-           congruence.
-        -- intros [q [Hq Hv]]. apply HP. exists q. split; [exact Hq|]. rewrite PN in Hv.
-           destruct (lookup2r (route C1 x ch) c q) as [v3|] eqn:Ec; [|exact Hv]. exfalso.
-           apply (route_exact C1 x ch c q v3 S1 Hch) in Ec. destruct Ec as [p [Hl Hk]].
-           assert (Hkf : In (x, p, d, q') CF) by (apply (wire_AB cfg c lvc pre inn post Hsh x p d q' Hx Hd); exists q; split; assumption).
-           assert (ER' : lookup2r (route CF x ch) d q' = Some v3) by (apply (route_exact CF x ch d q' v3 SF Hch); exists p; split; assumption).
-           congruence.
-    + intros HN o y q Hk. rewrite PN, (HN o y q Hk).
-      rewrite (route_lookup_none C1 x ch y q S1 Hch); [reflexivity|].
-      intros p Hk2. destruct (S1 x p c o y q Hk2 Hk) as [E _]. apply Hxc. exact E.
+    + unfold keepP. split; [exact Hpre|]. split; [exact Hpt|]. split; [exact Hnc | exact Hfed].
     + apply (de_wake_other _ _ _ _ _ _ _ _ _ HeN lvc (sh_lv _ _ _ _ _ _ Hsh)).
     + intros d Hd. rewrite (de_wake _ _ _ _ _ _ _ _ _ HeF). destruct ca as [w|]; [|reflexivity].
       apply lookup_upd_other. intros E. subst d. contradiction.
@@ -443,22 +544,23 @@ Qed.
 
 Lemma out_step_sys rootsN rootsF aN aF x ly :
   In x outs_ -> kd_of cfg x = KSys ly -> memb x rootsN = memb x rootsF -> Rout aN aF -> SUB (co_s aN) (co_s aF) ->
+  (forall q, pd aF x q = pd aN x q) ->
   let aN' := step' devf (on_tick_level cfg devf (S f)) top C1 time rootsN [] aN (x, KSys ly) in
   let aF' := step' devf (on_tick_level cfgF devf (S f)) top CF time rootsF [] aF (x, KSys ly) in
-  Rout aN' aF' /\ (Rpre aN aF -> Rpre aN' aF') /\ (Rnc aN -> Rnc aN') /\ frameN aN aN' /\ frameF aF aF' /\
+  Rout aN' aF' /\ keepP aN aF aN' aF' x /\ frameN aN aN' /\ frameF aF aF' /\
   SUB (co_s aN') (co_s aF').
 Proof.
-  intros Hx Hk Hr HR HS. cbv zeta.
+  intros Hx Hk Hr HR HS Hfull. cbv zeta.
   destruct (outsider_facts cfg c lvc pre inn post Hsh x Hx) as [Hxi [Hxc [Hxe Hxx]]].
   pose proof (sh_ss1 _ _ _ _ _ _ Hsh) as S1. fold C1 in S1.
   pose proof (Cf_single_source cfg c lvc pre inn post Hsh) as SF. fold CF in SF.
   assert (Hxs : issys cfg f lvc pre inn post x ly (S f)) by (left; split; [exact Hx | split; [exact Hk | reflexivity]]).
   destruct (Hsib x ly (S f) Hxs) as [Htop [Hlvc [HD [Hssl _]]]].
   set (D := devices_below cfg (S f) ly) in *. set (L := levels_below cfg (S f) ly) in *.
-  assert (Hinp : eqv (get_d x (co_in aN)) (get_d x (co_in aF))) by (apply eqv_of_pd; apply (ro_pend _ _ HR x Hx)).
+  assert (Hinp : eqv (get_d x (co_in aN)) (get_d x (co_in aF))) by (apply eqv_of_pd; exact Hfull).
   unfold step'. cbn [fst snd]. rewrite <- (nonempty_eqv _ _ Hinp), <- Hr.
   destruct (nonempty (get_d x (co_in aN)) || memb x rootsN).
-  2: { split; [exact HR|]. split; [auto|]. split; [auto|]. split; [repeat split; reflexivity|]. split; [intros d _; reflexivity | exact HS]. }
+  2: { split; [exact HR|]. split; [apply keepP_refl|]. split; [repeat split; reflexivity|]. split; [intros d _; reflexivity | exact HS]. }
   destruct (Pos.eqb_spec x ext_id) as [E|_]; [contradiction|]. destruct (Pos.eqb_spec x exp_id) as [E|_]; [contradiction|].
   pose proof (same_below_inline (S f) ly Htop) as Hsb.
   pose proof (on_tick_level_eqv2 cfg devf Hdev_nd Hdev_ext cfgF (S f) ly Hsb Hssl time
@@ -491,9 +593,9 @@ Proof.
   assert (PF : forall y q, pd aF' y q = match lookup2r (route CF x ch) y q with Some v => Some v | None => pd aF y q end).
   { intros y q. unfold pd, aF'. cbn [co_in]. rewrite accumulate_lookup by apply route_WFd.
     rewrite (route_eqv CF x ch' ch y q SF Nch' Nch (eqv_sym _ _ Ech)). reflexivity. }
-  destruct (pend_after_step aN aF aN' aF' x ch Hx Nch (ro_pend _ _ HR) PN PF) as [Hpend [Hpre Hnc]].
+  destruct (pend_after_step aN aF aN' aF' x ch Hx Nch (ro_pend _ _ HR) PN PF) as [Hpend [Hpre [Hpt [Hnc Hfed]]]].
   assert (Houtside : forall z, In z allc -> ~ In z D) by (intros z Hz Hd; apply (proj1 (HD z Hd)); exact Hz).
-  split; [|split; [exact Hpre | split; [exact Hnc | split; [|split]]]].
+  split; [|split; [unfold keepP; split; [exact Hpre|]; split; [exact Hpt|]; split; [exact Hnc | exact Hfed] | split; [|split]]].
   - constructor; cbn [aN' aF' co_s co_in co_obs].
     + intros z Hz. destruct (FN1 z (Houtside z Hz)) as [X1 X2]. destruct (FF1 z (Houtside z Hz)) as [Y1 Y2].
       apply (drel_frame (co_s aN) (co_s aF) s2 s2' z (ro_dev _ _ HR z Hz)).
@@ -724,25 +826,71 @@ Qed.
 Lemma frameN_trans a1 a2 a3 : frameN a1 a2 -> frameN a2 a3 -> frameN a1 a3.
 Proof. intros [A1 [A2 [A3 A4]]] [B1 [B2 [B3 B4]]]. repeat split; congruence. Qed.
 
-Lemma out_fold rootsN rootsF : forall l aN aF,
-  (forall x, In x l -> In x outs_) -> (forall x, In x l -> memb x rootsN = memb x rootsF) -> Rout aN aF -> SUB (co_s aN) (co_s aF) ->
+(* the pending values of a component before / after the system in the order of the top level *)
+Lemma full_pre aN aF x : In x pre -> Rout aN aF -> Rpt aN aF -> Rnc aN -> forall q, pd aF x q = pd aN x q.
+Proof.
+  intros Hx HR HPt HNc q. assert (Ho : In x outs_) by (apply in_app_iff; left; exact Hx).
+  destruct (wire_from_dec C1 c x q) as [Hno|[o Hk]]; [apply (ro_pend _ _ HR x Ho q Hno)|].
+  rewrite (HNc o x q Hk). destruct (pd aF x q) as [v|] eqn:E; [|reflexivity]. exfalso.
+  apply (HPt o x q Ho Hk v) in E. destruct E as [q0 [Hq _]].
+  apply (pre_post_disjoint x Hx). apply (sh_pt_dst _ _ _ _ _ _ Hsh q0 o x q Hq Hk).
+Qed.
+
+Lemma full_post aN aF x : In x post -> Rout aN aF -> Rfed aN aF -> forall q, pd aF x q = pd aN x q.
+Proof.
+  intros Hx HR HF q. assert (Ho : In x outs_) by (apply in_app_iff; right; exact Hx).
+  destruct (wire_from_dec C1 c x q) as [Hno|[o Hk]]; [apply (ro_pend _ _ HR x Ho q Hno) | apply (HF o x q Ho Hk)].
+Qed.
+
+Lemma out_fold_pre rootsN rootsF : forall l aN aF,
+  (forall x, In x l -> In x pre) -> (forall x, In x l -> memb x rootsN = memb x rootsF) ->
+  Rout aN aF -> Rpre aN aF -> Rpt aN aF -> Rnc aN -> SUB (co_s aN) (co_s aF) ->
   let aN' := fold_left (step' devf (on_tick_level cfg devf (S f)) top C1 time rootsN []) (map (dk cfg) l) aN in
   let aF' := fold_left (step' devf (on_tick_level cfgF devf (S f)) top CF time rootsF []) (map (dk cfg) l) aF in
-  Rout aN' aF' /\ (Rpre aN aF -> Rpre aN' aF') /\ (Rnc aN -> Rnc aN') /\ frameN aN aN' /\ frameF aF aF' /\ SUB (co_s aN') (co_s aF').
+  Rout aN' aF' /\ Rpre aN' aF' /\ Rpt aN' aF' /\ Rnc aN' /\ frameN aN aN' /\ frameF aF aF' /\ SUB (co_s aN') (co_s aF').
 Proof.
-  induction l as [|x r IH]; intros aN aF Hl Hr HR HS; cbv zeta; cbn [map fold_left].
-  - split; [exact HR|]. split; [auto|]. split; [auto|]. split; [repeat split; reflexivity|]. split; [intros d _; reflexivity | exact HS].
-  - change (dk cfg x) with (x, kd_of cfg x). destruct (kd_of cfg x) as [|ly] eqn:Ek.
-    + destruct (out_step (on_tick_level cfg devf (S f)) (on_tick_level cfgF devf (S f)) rootsN rootsF aN aF x (Hl x (or_introl eq_refl)) (Hr x (or_introl eq_refl)) HR)
-        as [HR1 [HP1 [HN1 [F1 [F2 [F3 [F4 [F5 F6]]]]]]]].
-      destruct (IH _ _ (fun y Hy => Hl y (or_intror Hy)) (fun y Hy => Hr y (or_intror Hy)) HR1 (F6 HS)) as [HR2 [HP2 [HN2 [G [G5 G6]]]]].
-      split; [exact HR2|]. split; [auto|]. split; [auto|]. split; [|split; [|exact G6]].
+  induction l as [|x r IH]; intros aN aF Hl Hr HR HP HPt HNc HS; cbv zeta; cbn [map fold_left].
+  - repeat (split; [assumption|]). split; [repeat split; reflexivity|]. split; [intros d _; reflexivity | exact HS].
+  - assert (Hxo : In x outs_) by (apply in_app_iff; left; apply Hl; left; reflexivity).
+    pose proof (full_pre aN aF x (Hl x (or_introl eq_refl)) HR HPt HNc) as Hfull.
+    change (dk cfg x) with (x, kd_of cfg x). destruct (kd_of cfg x) as [|ly] eqn:Ek.
+    + destruct (out_step (on_tick_level cfg devf (S f)) (on_tick_level cfgF devf (S f)) rootsN rootsF aN aF x Hxo (Hr x (or_introl eq_refl)) HR Hfull)
+        as [HR1 [[K1 [K2 [K3 _]]] [F1 [F2 [F3 [F4 [F5 F6]]]]]]].
+      destruct (IH _ _ (fun y Hy => Hl y (or_intror Hy)) (fun y Hy => Hr y (or_intror Hy)) HR1 (K1 HP) (K2 HPt) (K3 HNc) (F6 HS)) as [HR2 [HP2 [HPt2 [HN2 [G [G5 G6]]]]]].
+      repeat (split; [assumption|]). split; [|split; [|exact G6]].
       * eapply frameN_trans; [|exact G]. unfold frameN, int_of. rewrite F1, F3, F4, F5. repeat split; reflexivity.
       * intros d Hd. rewrite (G5 d Hd). apply F2. exact Hd.
-    + destruct (out_step_sys rootsN rootsF aN aF x ly (Hl x (or_introl eq_refl)) Ek (Hr x (or_introl eq_refl)) HR HS)
-        as [HR1 [HP1 [HN1 [F1 [F2 F6]]]]].
-      destruct (IH _ _ (fun y Hy => Hl y (or_intror Hy)) (fun y Hy => Hr y (or_intror Hy)) HR1 F6) as [HR2 [HP2 [HN2 [G [G5 G6]]]]].
-      split; [exact HR2|]. split; [auto|]. split; [auto|]. split; [|split; [|exact G6]].
+    + destruct (out_step_sys rootsN rootsF aN aF x ly Hxo Ek (Hr x (or_introl eq_refl)) HR HS Hfull)
+        as [HR1 [[K1 [K2 [K3 _]]] [F1 [F2 F6]]]].
+      destruct (IH _ _ (fun y Hy => Hl y (or_intror Hy)) (fun y Hy => Hr y (or_intror Hy)) HR1 (K1 HP) (K2 HPt) (K3 HNc) F6) as [HR2 [HP2 [HPt2 [HN2 [G [G5 G6]]]]]].
+      repeat (split; [assumption|]). split; [|split; [|exact G6]].
+      * eapply frameN_trans; eassumption.
+      * intros d Hd. rewrite (G5 d Hd). apply F2. exact Hd.
+Qed.
+
+Lemma out_fold_post rootsN rootsF : forall l aN aF,
+  (forall x, In x l -> In x post) -> (forall x, In x l -> memb x rootsN = memb x rootsF) ->
+  Rout aN aF -> Rfed aN aF -> SUB (co_s aN) (co_s aF) ->
+  let aN' := fold_left (step' devf (on_tick_level cfg devf (S f)) top C1 time rootsN []) (map (dk cfg) l) aN in
+  let aF' := fold_left (step' devf (on_tick_level cfgF devf (S f)) top CF time rootsF []) (map (dk cfg) l) aF in
+  Rout aN' aF' /\ frameN aN aN' /\ frameF aF aF' /\ SUB (co_s aN') (co_s aF').
+Proof.
+  induction l as [|x r IH]; intros aN aF Hl Hr HR HF HS; cbv zeta; cbn [map fold_left].
+  - split; [exact HR|]. split; [repeat split; reflexivity|]. split; [intros d _; reflexivity | exact HS].
+  - assert (Hxp : In x post) by (apply Hl; left; reflexivity).
+    assert (Hxo : In x outs_) by (apply in_app_iff; right; exact Hxp).
+    pose proof (full_post aN aF x Hxp HR HF) as Hfull.
+    change (dk cfg x) with (x, kd_of cfg x). destruct (kd_of cfg x) as [|ly] eqn:Ek.
+    + destruct (out_step (on_tick_level cfg devf (S f)) (on_tick_level cfgF devf (S f)) rootsN rootsF aN aF x Hxo (Hr x (or_introl eq_refl)) HR Hfull)
+        as [HR1 [[_ [_ [_ K4]]] [F1 [F2 [F3 [F4 [F5 F6]]]]]]].
+      destruct (IH _ _ (fun y Hy => Hl y (or_intror Hy)) (fun y Hy => Hr y (or_intror Hy)) HR1 (K4 Hxp HF) (F6 HS)) as [HR2 [G [G5 G6]]].
+      split; [exact HR2|]. split; [|split; [|exact G6]].
+      * eapply frameN_trans; [|exact G]. unfold frameN, int_of. rewrite F1, F3, F4, F5. repeat split; reflexivity.
+      * intros d Hd. rewrite (G5 d Hd). apply F2. exact Hd.
+    + destruct (out_step_sys rootsN rootsF aN aF x ly Hxo Ek (Hr x (or_introl eq_refl)) HR HS Hfull)
+        as [HR1 [[_ [_ [_ K4]]] [F1 [F2 F6]]]].
+      destruct (IH _ _ (fun y Hy => Hl y (or_intror Hy)) (fun y Hy => Hr y (or_intror Hy)) HR1 (K4 Hxp HF) F6) as [HR2 [G [G5 G6]]].
+      split; [exact HR2|]. split; [|split; [|exact G6]].
       * eapply frameN_trans; eassumption.
       * intros d Hd. rewrite (G5 d Hd). apply F2. exact Hd.
 Qed.
@@ -838,7 +986,7 @@ Proof.
 Qed.
 
 Lemma sys_step rootsN rootsF aNb aF :
-  Rout aNb aF -> Rpre aNb aF -> Rnc aNb -> SUB (co_s aNb) (co_s aF) ->
+  Rout aNb aF -> Rpre aNb aF -> Rpt aNb aF -> Rnc aNb -> SUB (co_s aNb) (co_s aF) ->
   let chg := get_d c (co_in aNb) in
   let ticked := nonempty chg || memb c rootsN in
   (ticked = true -> forall d, In d inn -> memb d (rootsC_of (co_s aNb)) = memb d rootsF) ->
@@ -847,7 +995,7 @@ Lemma sys_step rootsN rootsF aNb aF :
      lookup d (if ticked then filter notdue (wake_of (co_s aNb) lvc) else wake_of (co_s aNb) lvc) = lookup d (wake_of (co_s aF) top)) ->
   let aN' := step' devf (on_tick_level cfg devf (S f)) top C1 time rootsN [] aNb (c, KSys lvc) in
   let aF' := fold_left (step' devf (on_tick_level cfgF devf (S f)) top CF time rootsF []) (map (dki cfg lvc) inn) aF in
-  Rout aN' aF' /\ SUB (co_s aN') (co_s aF') /\
+  Rout aN' aF' /\ Rfed aN' aF' /\ SUB (co_s aN') (co_s aF') /\
   (forall d, In d inn -> lookup d (wake_of (co_s aN') lvc) = lookup d (wake_of (co_s aF') top)) /\
   lookup c (wake_of (co_s aN') top) =
     (if ticked then match min_wake (wake_of (co_s aN') lvc) with Some w => Some w | None => lookup c (wake_of (co_s aNb) top) end
@@ -856,7 +1004,7 @@ Lemma sys_step rootsN rootsF aNb aF :
   int_of (co_s aN') lvc = (if ticked then [] else int_of (co_s aNb) lvc) /\
   (ticked = true -> forall k, lookup k (filter notdue (wake_of (co_s aNb) lvc)) <> None -> lookup k (wake_of (co_s aN') lvc) <> None).
 Proof.
-  intros HR HP HNc HS chg ticked Hrt Hri Hwi. cbv zeta.
+  intros HR HP HPt HNc HS chg ticked Hrt Hri Hwi. cbv zeta.
   destruct nd_facts with (1 := Hsh) as [Hc_all [He_all [Hx_all [Hce [Hcx Hnd]]]]].
   pose proof (sh_ss1 _ _ _ _ _ _ Hsh) as S1. fold C1 in S1.
   pose proof (sh_ssc _ _ _ _ _ _ Hsh) as Sc. fold Cc in Sc.
@@ -866,7 +1014,11 @@ Proof.
   destruct ticked eqn:Et.
   2: { (* not ticked *)
     rewrite in_fold_idle.
-    - split; [exact HR|]. split; [exact HS|]. split; [exact Hwi|]. split; [reflexivity|]. split; [discriminate|]. split; [reflexivity|]. split; [reflexivity | discriminate].
+    - split; [exact HR|]. split; [|split; [exact HS|]; split; [exact Hwi|]; split; [reflexivity|]; split; [discriminate|]; split; [reflexivity|]; split; [reflexivity | discriminate]].
+      (* nothing is pending on the system's inputs, so nothing has passed through it *)
+      intros o y q Hy Hk. rewrite (HNc o y q Hk). destruct (pd aF y q) as [v|] eqn:E; [|reflexivity]. exfalso.
+      apply (HPt o y q Hy Hk v) in E. destruct E as [q0 [_ E]]. rewrite pd_get_d in E. fold chg in E.
+      unfold ticked in Et. apply orb_false_iff in Et. destruct Et as [Et _]. destruct chg; [discriminate | discriminate].
     - intros d Hd. split; [|apply (Hri eq_refl d Hd)].
       assert (Hnone : forall q', pd aF d q' = None).
       { intros q'. destruct (pd aF d q') as [v|] eqn:E; [|reflexivity]. exfalso.
@@ -905,10 +1057,12 @@ Proof.
       + destruct (lookup2r (route Cc ext_id chg) d q') as [v|] eqn:E2; [|reflexivity]. exfalso.
         apply (route_exact Cc ext_id chg d q' v Sc Hchg) in E2. destruct E2 as [q [Hl Hk]].
         assert (E3 : pd aF d q' = Some v) by (apply (HP d Hd q' v); exists q; split; [exact Hk | rewrite pd_get_d; exact Hl]). congruence.
-    - intros y Hy q _. apply (ro_pend _ _ HR y Hy q).
-    - intros y Hy q o Hk. rewrite (ro_pend _ _ HR y Hy q), (HNc o y q Hk), PC1. symmetry.
-      apply route_lookup_none; [exact Sc | exact Hchg|]. intros p Hk2.
-      destruct (cc_ends cfg c lvc pre inn post Hsh _ _ _ _ Hk2) as [_ [_ D]]. apply D. split; reflexivity.
+    - intros y Hy q Hno. apply (ro_pend _ _ HR y Hy q Hno).
+    - (* a port fed by the system: pending in F is what passes straight through the system *)
+      intros y Hy q o Hk. rewrite PC1. apply option_ext. intros v. rewrite (HPt o y q Hy Hk v).
+      rewrite (route_exact Cc ext_id chg exp_id o v Sc Hchg). split.
+      + intros [q0 [Hq Hv]]. exists q0. split; [rewrite pd_get_d in Hv; exact Hv | exact Hq].
+      + intros [q0 [Hl Hq]]. exists q0. split; [exact Hq | rewrite pd_get_d; exact Hl].
     - cbn [aC1 co_in]. apply in_ok_accumulate. intros z. cbn. constructor.
     - exact (ro_okF _ _ HR).
     - cbn [aC1 co_obs]. rewrite app_nil_r. exact (ro_obs _ _ HR).
@@ -947,18 +1101,21 @@ Proof.
   assert (PN' : forall y q, lookup2r (accumulate (co_in aNb) (route C1 c outc)) y q =
                             match lookup2r (route C1 c outc) y q with Some v => Some v | None => pd aNb y q end).
   { intros y q. apply accumulate_lookup. apply route_WFd. }
-  split; [|split; [|split; [|split; [|split; [|split; [|split]]]]]].
+  assert (Hall : forall y, In y outs_ -> forall q,
+            pd aF' y q = lookup2r (accumulate (co_in aNb) (route C1 c outc)) y q).
+  { intros y Hy q. rewrite PN'.
+    destruct (lookup2r (route C1 c outc) y q) as [v|] eqn:Er.
+    - apply (route_exact C1 c outc y q v S1 Houtc) in Er. destruct Er as [o [Hl Hk]].
+      rewrite (r2_pb _ _ _ HR3 y Hy q o Hk), pd_get_d. exact Hl.
+    - pose proof (wire_from_dec C1 c y q) as Hcase.
+      destruct Hcase as [Hno|[o Hk]]; [apply (r2_pa _ _ _ HR3 y Hy q Hno)|].
+      rewrite (r2_pb _ _ _ HR3 y Hy q o Hk), (HNc o y q Hk), pd_get_d. fold outc.
+      destruct (lookup o outc) as [v|] eqn:El; [|reflexivity]. exfalso.
+      assert (Er2 : lookup2r (route C1 c outc) y q = Some v) by (apply (route_exact C1 c outc y q v S1 Houtc); exists o; split; assumption). congruence. }
+  split; [|split; [|split; [|split; [|split; [|split; [|split; [|split]]]]]]].
   - constructor; cbn [co_s co_in co_out co_obs].
     + intros z Hz. unfold drel. rewrite Hdcsfin, Hcntfin. apply (r2_dev _ _ _ HR3 z Hz).
-    + intros y Hy q. unfold pd at 2. cbn [co_in]. rewrite PN'.
-      destruct (lookup2r (route C1 c outc) y q) as [v|] eqn:Er.
-      * apply (route_exact C1 c outc y q v S1 Houtc) in Er. destruct Er as [o [Hl Hk]].
-        rewrite (r2_pb _ _ _ HR3 y Hy q o Hk), pd_get_d. exact Hl.
-      * pose proof (wire_from_dec C1 c y q) as Hcase.
-        destruct Hcase as [Hno|[o Hk]]; [apply (r2_pa _ _ _ HR3 y Hy q Hno)|].
-        rewrite (r2_pb _ _ _ HR3 y Hy q o Hk), (HNc o y q Hk), pd_get_d. fold outc.
-        destruct (lookup o outc) as [v|] eqn:El; [|reflexivity]. exfalso.
-        assert (Er2 : lookup2r (route C1 c outc) y q = Some v) by (apply (route_exact C1 c outc y q v S1 Houtc); exists o; split; assumption). congruence.
+    + intros y Hy q _. unfold pd at 2. cbn [co_in]. apply (Hall y Hy q).
     + apply in_ok_accumulate. exact (ro_okN _ _ HR).
     + exact (r2_okF _ _ _ HR3).
     + exact (r2_obs _ _ _ HR3).
@@ -966,6 +1123,7 @@ Proof.
       * rewrite wake_of_set_wake, lookup_upd_other; [apply (r2_wo _ _ _ HR3 y Hy)|].
         intros E. subst y. apply Hc_all. apply in_outs_all in Hy. exact Hy.
       * apply (r2_wo _ _ _ HR3 y Hy).
+  - intros o y q Hy _. unfold pd at 2. cbn [co_in]. apply (Hall y Hy q).
   - intros y ly g Hy. destruct (Hsib y ly g Hy) as [Htop _].
     apply (SR_frm_l _ _ (co_s aC2) (co_s aF') [] [top] sfin (HS3 y ly g Hy)); [|intros z _ [] | intros l Hl [E|[]]; subst l; contradiction].
     unfold sfin. destruct (min_wake _); [apply set_wake_frm | apply frm_refl].
@@ -1055,31 +1213,33 @@ Proof.
   set (a0F := {| co_s := sF; co_in := []; co_out := []; co_obs := [] |}).
   assert (HR0 : Rout a0N a0F).
   { constructor; cbn [a0N a0F co_s co_in co_obs]; try assumption.
-    - intros y _ q. reflexivity.
+    - intros y _ q _. reflexivity.
     - intros z. cbn. constructor.
     - intros z. cbn. constructor.
     - constructor. }
+  assert (HPt0 : Rpt a0N a0F).
+  { intros o y q' _ _ v. unfold pd. cbn [a0N a0F co_in lookup2r lookup]. split; [discriminate | intros [q [_ H]]; discriminate]. }
   assert (HP0 : Rpre a0N a0F).
   { intros d _ q' v. unfold pd. cbn [a0N a0F co_in lookup2r lookup]. split; [discriminate | intros [q [_ H]]; discriminate]. }
   assert (HN0 : Rnc a0N) by (intros o y q _; reflexivity).
   assert (Hpre_in : forall x, In x pre -> In x outs_) by (intros x Hx; apply in_app_iff; left; exact Hx).
   assert (Hpost_in : forall x, In x post -> In x outs_) by (intros x Hx; apply in_app_iff; right; exact Hx).
-  destruct (out_fold rootsN rootsF pre a0N a0F Hpre_in (fun x Hx => Hro x (Hpre_in x Hx)) HR0 HS0) as [HR1 [HP1 [HN1 [[G1 [G2 [G3 G4]]] [G5 HS1]]]]].
-  fold innN innF in HR1, HP1, HN1, G1, G2, G3, G4, G5, HS1.
+  destruct (out_fold_pre rootsN rootsF pre a0N a0F (fun x H => H) (fun x Hx => Hro x (Hpre_in x Hx)) HR0 HP0 HPt0 HN0 HS0) as [HR1 [HP1 [HPt1 [HN1 [[G1 [G2 [G3 G4]]] [G5 HS1]]]]]].
+  fold innN innF in HR1, HP1, HPt1, HN1, G1, G2, G3, G4, G5, HS1.
   set (a1N := fold_left (step' devf innN top C1 time rootsN []) (map (dk cfg) pre) a0N) in *.
   set (a1F := fold_left (step' devf innF top CF time rootsF []) (map (dk cfg) pre) a0F) in *.
   cbn [a0N co_s] in G1, G2, G3, G4. cbn [a0F co_s] in G5.
   assert (Erc : rootsC_of (co_s a1N) = rootsC_of sN) by (unfold rootsC_of, due_of; rewrite G1, G3, G4; reflexivity).
   set (tk := nonempty (get_d c (co_in a1N)) || memb c rootsN).
-  destruct (sys_step rootsN rootsF a1N a1F HR1 (HP1 HP0) (HN1 HN0) HS1) as [HR2 [HS2 [HWI [HC [HT1 [HT0 [HI HKP]]]]]]].
+  destruct (sys_step rootsN rootsF a1N a1F HR1 HP1 HPt1 HN1 HS1) as [HR2 [HF2 [HS2 [HWI [HC [HT1 [HT0 [HI HKP]]]]]]]].
   - intros _ d Hd. rewrite Erc. apply (Hri d Hd).
   - fold tk. intros Et d Hd. apply orb_false_iff in Et. apply (Hidle (proj2 Et) d Hd).
   - fold tk. intros d Hd. rewrite G1, (G5 d Hd). destruct tk eqn:Et; [apply (Hwi d Hd)|].
     apply orb_false_iff in Et. rewrite <- (Hnodue (proj2 Et)). apply (Hwi d Hd).
-  - fold tk in HC, HT1, HT0, HI, HKP. fold innN in HR2, HWI, HC, HT1, HT0, HI, HKP.
+  - fold tk in HC, HT1, HT0, HI, HKP. fold innN in HR2, HF2, HWI, HC, HT1, HT0, HI, HKP.
     set (a2N := step' devf innN top C1 time rootsN [] a1N (c, KSys lvc)) in *.
     set (a2F := fold_left (step' devf innF top CF time rootsF []) (map (dki cfg lvc) inn) a1F) in *.
-    destruct (out_fold rootsN rootsF post a2N a2F Hpost_in (fun x Hx => Hro x (Hpost_in x Hx)) HR2 HS2) as [HR3 [_ [_ [[K1 [K2 [K3 K4]]] [K5 HS3]]]]].
+    destruct (out_fold_post rootsN rootsF post a2N a2F (fun x H => H) (fun x Hx => Hro x (Hpost_in x Hx)) HR2 HF2 HS2) as [HR3 [[K1 [K2 [K3 K4]]] [K5 HS3]]].
     fold innN innF in HR3, K1, K2, K3, K4, K5, HS3.
     set (a3N := fold_left (step' devf innN top C1 time rootsN []) (map (dk cfg) post) a2N) in *.
     set (a3F := fold_left (step' devf innF top CF time rootsF []) (map (dk cfg) post) a2F) in *.
